@@ -1027,8 +1027,9 @@ def signature(prop, c, impl, verdict):
     if isinstance(ax, int) and ax < 0 and types and negrec0(ax, *types) and impl.startswith('err'):
         return 'negaxis-zero-through-record'
     rax = res_axis(types[0], ax) if (types and isinstance(ax, int)) else ax
-    if tg.get('rec_untrimmed') and (f.endswith(':none') or tg.get('axis') == 'none'):
-        return 'completely-flatten-record-untrimmed-fields'
+    if prop == 'C05' and f in ('unflatten', 'rt_unflatten') and verdict.startswith('viol closure') \
+            and impl.startswith('ok') and any(has_strnode(l) for l in lays):
+        return 'axis-into-string-characters'
     if verdict.startswith('viol closure') and impl.startswith('ok'):
         nchar = impl.count('(par char none (np uint8 (0) ())') + impl.count('(par byte none (np uint8 (0) ())')
         nstr = impl.count('(par string none') + impl.count('(par bytestring none')
@@ -1049,32 +1050,24 @@ def signature(prop, c, impl, verdict):
                 return 'argminmax-nonlocal-positions'
         return sg
     if prop == 'C05':
-        if f in ('unflatten', 'rt_unflatten') and verdict.startswith('viol closure') and impl.startswith('ok') \
-                and any(has_strnode(l) for l in lays):
-            return 'axis-into-string-characters'
         if f == 'num' and rax == 0 and lays and top_node(lays[0]) == 'rec':
             return 'num-axis0-recordarray-returns-record'
         if f in ('unflatten', 'rt_unflatten') and tg.get('lead0'):
             return 'unflatten-inner-leading-zero-count'
         if f == 'unflatten' and tg.get('negcount'):
             return 'unflatten-negative-counts'
-        if f == 'unflatten' and tg.get('pack_hazard'):
-            return 'unflatten-pack-leaves-unreachable-lists'
     if prop == 'C09':
         if f == 'is_none' and tg.get('beyond'):
             return 'is-none-axis-beyond-depth'
-        if f == 'pad_none' and tg.get('clip') and rax == 0 and lays and top_node(lays[0]) == 'unm':
-            return 'unmasked-rpad-and-clip-axis0-no-clip'
         if f == 'fill_none' and isinstance(tg.get('axis'), str) and tg['axis'].startswith('-') and types \
                 and rec_deep(types[0]):
             return 'negaxis-record-not-resolved'
     if prop == 'C07':
-        closure = verdict.startswith('viol closure')
-        if f in ('cartesian', 'combinations') and rax == 0 and tg.get('top_optionlike') and closure:
-            return 'axis0-product-indexed-over-option'
         if f in ('cartesian', 'argcartesian'):
-            if tg.get('dict') and tg.get('nested') == 'invalid':
-                return 'cartesian-dict-nested-not-validated'
+            if rax == 0 and tg.get('dict') and 'IndexError: list index out of range' in msg:
+                # a dict's last key in `nested` ("ignored" says the code, and it is for axis >= 1): the axis=0 branch
+                # reads layouts[i + 1]
+                return 'cartesian-axis0-nested-last-key-indexerror'
             if rax == 0 and tg.get('nested') in ('all', 'subset'):
                 return 'cartesian-axis0-nested-grouping'
             if tg.get('reg0') and tg.get('axis', 0) >= 1 and impl.startswith('err') and 'RegularArray of size' in msg:
@@ -1082,20 +1075,43 @@ def signature(prop, c, impl, verdict):
     if prop == 'C10':
         if f in ('zip', 'unzip_zip') and tg.get('all_strings') and tg.get('depth_limit') == 'none':
             return 'zip-all-strings-gives-one-record'
-        if f in ('with_field', 'get_with_field') and tg.get('sole_field') and tg.get('shared', 1) >= 1:
-            return 'with-field-sole-field-drops-structure'
     if any(has_reg0(l) for l in lays) and impl.startswith('err') and verdict.startswith('viol value'):
         return 'regular-size0-refused'
     if any(has_node(l, ('reg',)) for l in lays) and verdict.startswith('viol value'):
         # no element survives (zero-length arrays, or every row masked out): all_same_offsets compares
         # arange(0, len(content), size) of a RegularArray with the offsets of zero lists, takes the "same offsets"
         # branch and hands the RegularArray itself to the next level
-        if all((G.child_len(l) or 0) == 0 for l in lays) or re.search(r'\(impl \(t?l?( none| \(l\))*\)\)', verdict) \
-                or re.search(r'\(spec \(l( none)*\)\)', verdict):
+        def no_leaves(part):
+            # the (impl ...) / (spec ...) value of the verdict is a value without any leaf (only lists / None)
+            i_ = verdict.find('(' + part + ' ')
+            if i_ < 0:
+                return False
+            j_, depth_ = i_, 0
+            while j_ < len(verdict):
+                depth_ += verdict[j_] == '('
+                depth_ -= verdict[j_] == ')'
+                j_ += 1
+                if depth_ == 0:
+                    break
+            body = verdict[i_ + len(part) + 2:j_ - 1]
+            return body.startswith('(') and not re.search(r'[0-9]|true|false|nan|inf', body)
+        if all((G.child_len(l) or 0) == 0 for l in lays) or no_leaves('impl') or no_leaves('spec'):
             return 'broadcast-all-same-offsets-regular-zero-length'
     if any(has_node(l, ('reg',)) for l in lays) and impl.startswith('err') and 'cannot broadcast' in msg \
             and ' of length ' in msg and verdict.startswith('viol value') and '(spec err)' not in verdict:
         return 'regular-level-no-left-broadcast'
+    # ---- defects that have been FIXED in /repo (a fixed entry suppresses nothing: a regression is reported by name)
+    if tg.get('rec_untrimmed') and (f.endswith(':none') or tg.get('axis') == 'none'):
+        return 'completely-flatten-record-untrimmed-fields'
+    if prop == 'C05' and f == 'unflatten' and tg.get('pack_hazard'):
+        return 'unflatten-pack-leaves-unreachable-lists'
+    if prop == 'C09' and f == 'pad_none' and tg.get('clip') and rax == 0 and lays and top_node(lays[0]) == 'unm':
+        return 'unmasked-rpad-and-clip-axis0-no-clip'
+    if prop == 'C07' and f in ('cartesian', 'combinations') and rax == 0 and tg.get('top_optionlike') \
+            and verdict.startswith('viol closure'):
+        return 'axis0-product-indexed-over-option'
+    if prop == 'C10' and f in ('with_field', 'get_with_field') and tg.get('sole_field'):
+        return 'with-field-sole-field-drops-structure'
     return None
 
 
